@@ -165,17 +165,19 @@ def trajectory_invariants(a, t0, y0, segments, dtype, attrs, check_status=True):
     return out
 
 
-def run_integrate(a, target=None, step_limit=None, events=None, callbacks=None, injected=()):
-    """Calls a.integrate; returns (exception or None). A StepCap is returned as the StepCap itself."""
+def run_integrate(a, target=None, step_limit=None, events=None, callbacks=None, injected=(), eta=False):
+    """Calls a.integrate; returns (exception or None). A StepCap is returned as the StepCap itself.
+    eta=True asks for the progress bar (silenced through TQDM_DISABLE=1 in ./check: the bookkeeping around it still runs)."""
     import desolver as de
     cbs = list(callbacks or [])
     if step_limit is not None:
         cbs.append(cap_callback(step_limit))
     try:
+        kw = dict(eta=True) if eta else {}
         if target is None:
-            a.integrate(callback=cbs, events=events)
+            a.integrate(callback=cbs, events=events, **kw)
         else:
-            a.integrate(target, callback=cbs, events=events)
+            a.integrate(target, callback=cbs, events=events, **kw)
     except de.exception_types.FailedIntegration as e:
         cause = e.__cause__
         depth = 0
